@@ -114,7 +114,10 @@ fn plan_file(rng: &mut Rng, path: &str, comment: &'static str, names: &mut usize
         for (k, v) in *rng.pick(RULES) { attrs += &format!(" {k}=\"{v}\""); }
         let indent = ["", "  "][rng.below(2)];
         let noise = ["", "", "é ", "→→ ", "ж x "][rng.below(5)];
-        lines.push(format!("{indent}{comment} {noise}<block{attrs}>"));
+        // one start-tag line in eight is LONG (600 bytes of comment text after the tag): edits at both ends of such a line leave
+        // the tag between them untouched
+        let tail = if rng.chance(1, 8) { format!(" {}", "pad ".repeat(150)) } else { String::new() };
+        lines.push(format!("{indent}{comment} {noise}<block{attrs}>{tail}"));
         let s = lines.len();
         let nbody = rng.below(5);
         let nest_at = if allow_nest && rng.chance(1, 4) { Some(rng.below(nbody + 1)) } else { None };
@@ -204,7 +207,9 @@ fn build_script(rng: &mut Rng, plan: &FilePlan, targeted: bool) -> Script {
             }
             4 => {
                 // edit of the comment text before the `<` on the tag's line: neither
-                let old = plan.lines[s].replacen(plan.comment, &format!("{}XX", plan.comment), 1);
+                let mut old = plan.lines[s].replacen(plan.comment, &format!("{}XX", plan.comment), 1);
+                // on a long tag line the far end of the line is edited as well (two separate edits around the tag)
+                if old.ends_with("pad ") { old.truncate(old.len() - 2); old.push_str("X "); }
                 ops[s] = LineOp::Edit(old); reserve(s, s, &mut reserved);
                 classes.push(json!({"block": b.name, "class": "tag-line-noise-edit", "content": false, "listed": false}));
             }
